@@ -124,12 +124,19 @@ def one_family(run, bench, rng):
     names = [f["name"] for f in fam["decls"][root]["fields"] if f["t"] != "em"]
     # override values from a consistent parse (if one is found)
     donor = None
-    for _ in range(6):
+    # (selector families: a donor that selects another alternative than the default packet does, so that one class serializes
+    #  two different selections one after the other)
+    sel_keys = [(f["key"], f["default_key"]) for f in fam["decls"][root]["fields"] if f["t"] == "sel"]
+    d0 = model.defaults(fam, root) if sel_keys else None
+    for attempt in range(14 if sel_keys else 6):
         raw, oc = model.generate_input(fam, rng, maxlen=100)
         st, mr = harness.model_parse(fam, raw, 0)
         if st == "ok":
             donor = mr.value
-            break
+            if not sel_keys or attempt >= 8 or any(donor.vals.get(k) != d0.vals.get(k) for k, _ in sel_keys):
+                if sel_keys and any(donor.vals.get(k) != d0.vals.get(k) for k, _ in sel_keys):
+                    run.count("donors_selecting_another_alternative_than_the_default")
+                break
     for v in ("g", "d"):
         src = driver.src_of(bench, v)
         want0 = model.defaults(fam, root)
@@ -252,8 +259,13 @@ def run(run):
     from .. import predicates
     little = dict(profile, accept=predicates.little_class_with_optional_int_default, p_class_endianness=0.9, p_opt=0.35, p_default=0.7,
                   kinds={"int": 55, "data": 20, "bits": 6, "ref": 14, "sel": 3, "em": 2})
+    selints = dict(profile, accept=predicates.selector_between_integers_of_different_shape, p_rep=0.08, p_opt=0.05,
+                   kinds={"int": 45, "data": 15, "bits": 4, "ref": 8, "sel": 26, "em": 2})
     for bench in itertools.chain(driver.families(run, rng, profile, VARIANTS, nfam, instrument=(), tag="c19"),
-                                 driver.families(run, rng, little, VARIANTS, max(12, nfam // 16), instrument=(), tag="c19l")):
+                                 driver.families(run, rng, little, VARIANTS, max(12, nfam // 16), instrument=(), tag="c19l"),
+                                 driver.families(run, rng, selints, VARIANTS, max(16, nfam // 12), instrument=(), tag="c19s")):
+        if predicates.selector_between_integers_of_different_shape(bench.fam):
+            run.count("families_selecting_between_integers_of_different_shape")
         if predicates.little_class_with_optional_int_default(bench.fam):
             run.count("families_with_optional_int_default_in_little_endian_class")
         stats(run, bench.fam)
